@@ -1070,7 +1070,7 @@ def run_C09(rng, tier):
 C16_VIEWS = ["Sma", "Cumulative", "Alma", "Rsi", "MyRsi", "Welford", "WelfordMean", "Vst", "Vsct", "Hln", "Cti", "Net", "Roc", "Ema", "Min", "Max", "Cog"]
 def run_C16(rng, tier):
     k = scale(tier)
-    L = 20000 if tier == "quick" else 200000
+    L = 20000 if tier == "quick" else 50000      # the exact scalar keeps every intermediate value of a case alive: memory grows with L
     groups = []
     def sampled(d, xs, meta, every):
         ops = []
